@@ -133,6 +133,20 @@ def compare(ctx, infr, inam, edges, mode, case, tag):
     if not (np.array_equal(f0, infr) and np.array_equal(a0, inam)):
         ctx.violation('hht-mutates-input', 'a spectrum routine modified its input arrays', case)
         return
+    if infr.flags.writeable and inam.flags.writeable:
+        # the arrays are the caller's: it may refill them for the next recording while it still holds the earlier spectra
+        keep = (dense.copy(), spd.copy(), one.copy())
+        inam[...] = 7.5
+        infr[...] = edges[0]
+        changed = [n for n, a, b in (('dense', dense, keep[0]), ('sparse', sp.toarray() if hasattr(sp, 'toarray') else np.asarray(sp), keep[1]),
+                                     ('1d', one, keep[2])) if not np.array_equal(a, b)]
+        inam[...] = a0
+        infr[...] = f0
+        ctx.count('results_checked_after_caller_refilled_its_arrays')
+        if changed:
+            ctx.violation('hht-result-aliases-input', 'the %s spectrum changed when the caller overwrote its own frequency / amplitude arrays after the '
+                          'call (the result shares memory with an input)' % '/'.join(changed), case)
+            return
     ctx.count('agree:' + tag)
     if (infr < edges[0]).any():
         ctx.count('with_below_range')
@@ -149,9 +163,61 @@ def shapes_for(k):
     return [(T, k // T) for T in range(1, k + 1) if k % T == 0]
 
 
+def thread_probe(ctx, rng):
+    """Several threads of one interpreter computing spectra of same-shaped, different recordings at the same time: each must get
+    what it gets when running alone (the interpreter is made to switch threads every 10 microseconds)."""
+    import sys
+    import threading
+    from emd import spectra as SP
+    T, M, K = int(gens.pick(rng, [50, 200, 2000, 20000])), int(rng.integers(1, 4)), 4
+    edges, _ = SP.define_hist_bins(1.0, 20.0, int(rng.integers(3, 30)), scale='linear')
+    mode = gens.pick(rng, ['energy', 'amplitude'])
+    seeds = [int(s) for s in rng.integers(1 << 30, size=K)]
+
+    def inputs(s):
+        r = np.random.default_rng(s)
+        return r.uniform(-2, 25, (T, M)), r.uniform(.1, 3, (T, M))
+
+    def run(s):
+        f, a = inputs(s)
+        return (SP.hilberthuang(f, a, edges, mode=mode), SP.hilberthuang(f, a, edges, mode=mode, return_sparse=True).toarray(),
+                SP.hilberthuang_1d(f, a, edges, mode=mode))
+    alone = [run(s) for s in seeds]
+    reps = 300 if T <= 2000 else 40
+    bad = []
+
+    def worker(k):
+        for _ in range(reps):
+            try:
+                got = run(seeds[k])
+                if not all(np.array_equal(g, w) for g, w in zip(got, alone[k])):
+                    bad.append('thread %d got a different spectrum than when running alone' % k)
+                    return
+            except Exception as e:
+                bad.append('thread %d: %s: %s' % (k, type(e).__name__, str(e)[:80]))
+                return
+    old = sys.getswitchinterval()
+    sys.setswitchinterval(1e-5)
+    try:
+        th = [threading.Thread(target=worker, args=(k,)) for k in range(K)]
+        for t in th:
+            t.start()
+        for t in th:
+            t.join()
+    finally:
+        sys.setswitchinterval(old)
+    ctx.count('concurrent_thread_calls', K * reps)
+    ctx.case(digest('threads', T, M, seeds, mode), True)
+    if bad:
+        ctx.violation('threads', 'hilberthuang called from %d threads at once on same-shaped recordings (%d x %d): %s' % (K, T, M, bad[0]),
+                      {'kind': 'threads', 'T': T, 'M': M, 'seeds': seeds, 'mode': mode, 'nbins': len(edges) - 1})
+
+
 def run_shard(ctx):
     from emd import spectra as SP
     rng = ctx.rng
+    if ctx.shard % 2 == 0:
+        thread_probe(ctx, rng)
     # random part
     n = NRANDOM[ctx.tier] // ctx.nshards
     for i in range(n):
@@ -186,7 +252,7 @@ def run_shard(ctx):
             infr = infr.astype(np.float32)   # (integer-typed frequency arrays are not generated: hilberthuang_1d cannot mark
             #                                   out-of-range entries of an integer array as NaN; instantaneous frequencies are floats)
         infr, lay1 = relayout(rng, infr)
-        inam, lay2 = relayout(rng, inam)
+        inam, lay2 = relayout(rng, inam, native=True)     # (scipy.sparse refuses non-native byte order: not the property's business)
         ctx.count('layout:%s/%s' % (lay1, lay2))
         ctx.count('freq_dtype:%s' % infr.dtype)
         case = {'kind': 'hht', 'infr': infr, 'inam': inam, 'edges': edges, 'mode': mode, 'layouts': [lay1, lay2], 'freq_dtype': str(infr.dtype)}
@@ -245,13 +311,18 @@ def finalize(agg, tier):
     r = []
     if c.get('exhaustive_done', 0) < 1:
         r.append('enumeration incomplete')
-    for k in ['with_below_range', 'with_at_or_above_range', 'with_value_on_edge', 'agree:random', 'bin_sets_checked:from_data']:
+    for k in ['with_below_range', 'with_at_or_above_range', 'with_value_on_edge', 'agree:random', 'bin_sets_checked:from_data',
+              'results_checked_after_caller_refilled_its_arrays', 'concurrent_thread_calls']:
         if c.get(k, 0) < 50:
             r.append('%s: only %d' % (k, c.get(k, 0)))
     return r
 
 
 def replay(ctx, case):
+    if case['kind'] == 'threads':
+        for _ in range(5):
+            thread_probe(ctx, np.random.default_rng(case['seeds'][0]))
+        return
     if case['kind'] == 'hht':
         infr = np.asarray(case['infr']).astype(case.get('freq_dtype', 'float64'))
         inam = np.asarray(case['inam'], float)
